@@ -1,20 +1,24 @@
 #!/bin/sh
-# usage: tools/seedmatrix.sh [tier]   -- applies every stored seeded change to /repo in turn, runs its property's check,
-# reverts, and prints one line per change: CAUGHT (n violations) / MISSED / DOES-NOT-APPLY.  /repo must be clean.
+# usage: tools/seedmatrix.sh [tier]   -- applies every stored seeded change in turn to a scratch worktree of /repo HEAD
+# (so /repo itself stays free), runs its property's check against that tree, reverts, and prints one line per change:
+# CAUGHT (n violations) / MISSED / DOES-NOT-APPLY.
 TIER=${1:-quick}
 cd "$(dirname "$0")/.."
-if [ -n "$(git -C /repo status --porcelain)" ]; then echo "/repo not clean"; exit 2; fi
+WT=/tmp/seedmatrix-wt
+git -C /repo worktree remove --force $WT 2>/dev/null
+git -C /repo worktree add --detach $WT HEAD -q || exit 2
+cp /repo/solvor/_solvor_rust*.so $WT/solvor/ 2>/dev/null
 for d in seeded/*/; do
   id=$(basename $d)
   P=$(/venv/bin/python -c "import json,sys;print(json.load(open('$d/meta.json'))['property'])")
-  if ! git -C /repo apply --check $PWD/$d/patch.diff 2>/dev/null; then echo "$id $P DOES-NOT-APPLY"; continue; fi
-  git -C /repo apply $PWD/$d/patch.diff
-  out=$(./check $P --tier $TIER 2>&1); rc=$?
-  git -C /repo checkout -- . ; git -C /repo clean -fdq -- solvor rust 2>/dev/null
+  if ! git -C $WT apply --check $PWD/$d/patch.diff 2>/dev/null; then echo "$id $P DOES-NOT-APPLY"; continue; fi
+  git -C $WT apply $PWD/$d/patch.diff
+  out=$(VERIF_REPO=$WT ./check $P --tier $TIER 2>&1); rc=$?
+  git -C $WT checkout -- . ; git -C $WT clean -fdq -- solvor/*.py rust/src 2>/dev/null
   n=$(echo "$out" | grep -c "^VIOLATION")
   cl=$(echo "$out" | grep "^VIOLATION" | sed 's/.*clause=//' | sort | uniq -c | sort -rn | head -2 | awk '{print $2"("$1")"}' | tr '\n' ' ')
   dv=$(echo "$out" | grep "^DIVERGENCE" | sed 's/.*guard=\([^ ]*\).*/\1/' | head -2 | tr '\n' ' ')
   tot=$(echo "$out" | tail -1 | sed 's/.*violations=\([0-9]*\).*/\1/')
   if [ "$rc" = "1" ]; then echo "$id $P CAUGHT violations=$tot $cl ${dv:+| step: $dv}"; elif [ "$rc" = "0" ]; then echo "$id $P MISSED ${dv:+| step: $dv}"; else echo "$id $P MACHINERY rc=$rc $(echo "$out" | tail -2 | head -1 | cut -c1-150)"; fi
 done
-find replays -type f -delete 2>/dev/null
+git -C /repo worktree remove --force $WT 2>/dev/null
